@@ -119,4 +119,13 @@ MUTANTS = [
     F("C04", "a decoder that runs off its end on one path", "trace_handlers/mach.py",
       "            if vm_fault_real is not None:\n                pid = vm_fault_real.pid\n                caller_prot = vm_fault_real.caller_prot\n",
       "            if vm_fault_real is None:\n                return None\n            pid = vm_fault_real.pid\n            caller_prot = vm_fault_real.caller_prot\n", "K11"),
+    F("C04", "stand-alone records of undecoded codes return before the append loop", TP,
+      "        for eventid in state.get(event.tid, {}):\n            state[event.tid][eventid].append(event)\n        return self.parse_event_list([event])",
+      "        if self.trace_codes.get(event.eventid) not in self.handlers:\n            return None\n        for eventid in state.get(event.tid, {}):\n            state[event.tid][eventid].append(event)\n        return self.parse_event_list([event])", "K5"),
+    N("C04", "stand-alone records: the append loop under `if event.tid in state`", TP,
+      "        for eventid in state.get(event.tid, {}):\n            state[event.tid][eventid].append(event)\n        return self.parse_event_list([event])",
+      "        if event.tid in state:\n            for window in state[event.tid].values():\n                window.append(event)\n        return self.parse_event_list([event])"),
+    F("C04", "START of an undecoded code is not appended to the enclosing windows", TP,
+      "        state[event.tid][event.eventid] = []\n        for eventid in state[event.tid]:\n            state[event.tid][eventid].append(event)",
+      "        state[event.tid][event.eventid] = []\n        if event.eventid in self.trace_codes:\n            for eventid in state[event.tid]:\n                state[event.tid][eventid].append(event)\n        else:\n            state[event.tid][event.eventid].append(event)", "K3"),
 ]
